@@ -232,6 +232,8 @@ def setup(split=0):
 def sqlite_value_roundtrip(v):
     """assumed contract of a SQLite BLOB-affinity column for the value types Disk.store emits:
     int64 / float / str / bytes-like come back unchanged, except that NaN is stored as NULL"""
+    if isinstance(v, int) and type(v) is not int:
+        v = int(v)  # sqlite3 adapts bool / IntEnum as plain integers and hands back an int
     if MODE == 'real':
         import sqlite3
         con = sqlite3.connect(':memory:')
